@@ -21,6 +21,10 @@
    copy / deepcopy / assignment, Convert ...) for the ECI, the four COE and the EQE field combinations; every
    behaviour is replayed on a real object and each toECI() compared with a freshly built object of the same
    fields (ConvertIgnoresHistory).  Spec mutant Memoise = TRUE must be refuted.
+   OrbitLatticeDescribe.tla: all 64 subsets of the six angular COE fields per orbit class (minimal and
+   over-specified descriptions, documented element set = the most specific one contained); every accepted
+   description that describes the lattice orbit must convert to its state, a subset without element set
+   must be rejected.  Spec mutant Pick = "last" must be refuted.
 6. Seam arguments (a few ulps around 0 / whole turns) for every documented-range angle; the prograde
    equinoctial set of an exactly equatorial retrograde state must be refused, not answered with NaN.
 """
@@ -40,6 +44,7 @@ LEVEL = "model_checking"
 
 # tolerances (relative to |r| and |v| of the compared state unless stated otherwise)
 TOL_ACOS = 5e-7      # anything that went through the arccos-based extraction of eci2coe
+TOL_EQE_RT = 1e-9     # ECI -> EQE -> ECI on arbitrary orbits: no threshold of the classical set is involved, no allowance
 TOL_TIGHT = 1e-11    # forward conversions / arctan2-based paths
 TOL_VALUE = 1e-11    # scale-free element values (e, h, k, p, q, cos i)
 TOL_ANGLE = 5e-7     # angles extracted by arccos; 1e-9 for arctan2 based ones
@@ -581,6 +586,96 @@ def config_lifecycles(ctx: Ctx, sink: Sink, I: Impl, orbits: list):
     ctx.extra["config_lifecycle_behaviours_from_spec"] = len(behaviours)
 
 
+# ------------------------------------ minimal and over-specified classical descriptions of one orbit
+_COE_FIELD = {"raan": "right_ascension", "argp": "argument_periapsis", "ta": "true_anomaly",
+              "tlp": "true_longitude_periapsis", "arglat": "argument_latitude", "tl": "true_longitude"}
+
+
+def config_descriptions(ctx: Ctx, sink: Sink, I: Impl, orbits: list):
+    """Every subset of the six angular COE fields (OrbitLatticeDescribe.tla: documented element set, whether
+    it describes the orbit's class) filled with values CONSISTENT for a lattice orbit: an accepted
+    description whose documented form describes the orbit must convert to the orbit's state, however many
+    redundant angles it carries; a subset containing no element set must be rejected."""
+    cfg = 'SPECIFICATION Spec\nCONSTANT Pick = "%s"\nINVARIANT DocumentedFormChosen\nINVARIANT FullSetNeverLosesAngles\nINVARIANT SupersetsAccepted\n'
+    res = tlc.require_ok(tlc.run_tlc("OrbitLatticeDescribe", cfg % "first" + "INVARIANT EmitDescription\n", ctx.sub("describe"),
+                                     workers=1, timeout=600, coverage=True), "OrbitLatticeDescribe")
+    ctx.add_tlc(res, "OrbitLatticeDescribe.tla exhaustive: 4 orbit classes x 64 field subsets, documented element set of each")
+    if not res.ok:
+        raise tlc.MachineryError("OrbitLatticeDescribe.tla fails at specification level:\n" + res.stdout[-2000:])
+    for act in ("PoseClass", "PoseFields"):
+        if res.coverage.get(f"OrbitLatticeDescribe!{act}", (0, 0))[1] == 0:
+            raise tlc.MachineryError(f"OrbitLatticeDescribe.tla action {act} never taken")
+    mut = tlc.run_tlc("OrbitLatticeDescribe", cfg % "last", ctx.sub("describemutant"), workers=1, timeout=600)
+    ctx.add_tlc(mut, 'spec mutant Pick="last" (the last matching element set decides): DocumentedFormChosen must be refuted')
+    if not any(nm in ("DocumentedFormChosen", "FullSetNeverLosesAngles") for nm, _ in mut.invariant_violations):
+        raise tlc.MachineryError("spec mutant Pick=last was not refuted:\n" + mut.stdout[-1500:])
+    ctx.extra.setdefault("spec_mutants_killed", []).append("Pick=last")
+    recs = sorted(res.tagged("DESCRIBE"), key=lambda r: (r["class"], sorted(r["present"])))
+    if len(recs) != 256:
+        raise tlc.MachineryError(f"OrbitLatticeDescribe.tla emitted {len(recs)} descriptions, expected 256")
+    per_class = 4 if ctx.quick else 16
+    n = 0
+    for cls_name in ("IE", "EE", "IC", "EC"):
+        pool = [o for o in orbits if o["el"]["case"] == cls_name]
+        pool = pool[:: max(1, len(pool) // per_class)][:per_class]
+        if not pool:
+            raise tlc.MachineryError(f"no lattice orbit of class {cls_name}")
+        for rec in pool:
+            el = rec["el"]
+            ecc = O.qf(rec["e"])
+            S = O.Scaled(rec, O.sizes_for(ecc, True)[1], I.mu)
+            x = S.state(rec["r"], rec["v"])
+            inc = math.degrees(math.atan2(O.qf(el["sini"]), O.qf(el["cosi"])))
+            sg = -1 if (el["retro"] and cls_name in ("EE", "EC")) else 1
+            if cls_name == "IE":
+                W, w, nu = el["raan"], el["argp"], el["nu"]
+            elif cls_name == "EE":
+                W, nu = 1, el["nu"]
+                w = (el["lonper_motion"] - sg * W) % 4
+            elif cls_name == "IC":
+                W, w = el["raan"], 1
+                nu = (el["arglat"] - w) % 4
+            else:
+                W, w = 1, 2
+                nu = (el["truelon_motion"] - w - sg * W) % 4
+            val = {"raan": W, "argp": w, "ta": nu, "arglat": w + nu, "tlp": w + sg * W, "tl": nu + w + sg * W}
+            for d in (r for r in recs if r["class"] == cls_name):
+                kw = {"semi_major_axis": S.sma, "eccentricity": ecc, "inclination": inc}
+                kw.update({_COE_FIELD[f]: 90.0 * (val[f] % 4) for f in d["present"]})
+                n += 1
+                ctx.case(("describe", cls_name, tuple(sorted(d["present"])), rec["fam"], str(rec["rot"]), rec["q"]), nontrivial=True,
+                         sample={"class": cls_name, "present": sorted(d["present"]), "form": d["form"]} if n == 40 else None)
+                rp = {"family": rec["fam"], "rot": rec["rot"], "q": rec["q"], "class": cls_name, "config": kw,
+                      "documented_form": d["form"], "state": x.tolist()}
+                try:
+                    obj = I.sc.COEStateConfig(**kw)
+                except Exception as ex:  # noqa: BLE001
+                    if d["form"] != "rejected":
+                        sink.fail(f"config-description-rejected-{d['form']}", f"COEStateConfig rejects fields {sorted(d['present'])} "
+                                  f"although they contain the {d['form']} element set: {ex!r}"[:400], rp)
+                    continue
+                if d["form"] == "rejected":
+                    sink.fail("config-description-accepted-without-element-set", f"COEStateConfig accepts angular fields {sorted(d['present'])} which contain no documented element set", rp)
+                    continue
+                if not d["describes"]:
+                    continue                   # e.g. only the true longitude of an inclined orbit: a different orbit by documentation
+                try:
+                    got = np.asarray(obj.toECI(EPOCH), dtype=float)
+                except Exception as ex:  # noqa: BLE001
+                    sink.fail(f"config-description-exception-{type(ex).__name__}", f"COEStateConfig({sorted(d['present'])}).toECI() raised {ex!r}", rp)
+                    continue
+                if (obj.eccentric, obj.inclined) != (d["form"] in ("IE", "EE"), d["form"] in ("IE", "IC")):
+                    sink.fail(f"config-description-wrong-element-set-{d['form']}", f"COEStateConfig with fields {sorted(d['present'])} is taken as "
+                              f"eccentric={obj.eccentric} inclined={obj.inclined}; the documented (most specific) element set is {d['form']}", rp)
+                elif not _close(got, x, TOL_TIGHT):
+                    extra = sorted(set(d["present"]) - set(d["reads"]))
+                    sink.fail(f"config-description-wrong-state-{d['form']}" + ("-overspecified" if extra else ""),
+                              f"COEStateConfig of a {cls_name} lattice orbit with fields {sorted(d['present'])} (element set {d['form']}, redundant {extra}) "
+                              f"gives a state {_rel(got, x)[0]:.3g} |r| away from the orbit", dict(rp, got=got.tolist()))
+    ctx.traces_validated += n
+    ctx.extra["config_descriptions"] = n
+
+
 # --------------------------------------------------- seam arguments of every documented-range angle
 def seam_arguments(ctx: Ctx, sink: Sink, I: Impl):
     """Angles a few ulps below zero / around a whole turn (and multiples) handed to everything that documents
@@ -728,7 +823,7 @@ def _relations(sink: Sink, I: Impl, x, mu, cls, cases, tag: str, rp: dict, allow
         for flag in flags:
             eq = c.eci2eqe(x, mu=mu, retro=flag)
             _range_check(sink, "eci2eqe", "mean_longitude", eq[5], rp)
-            if not _close(c.eqe2eci(*eq, mu=mu, retro=flag), x, 1e-9, allow):
+            if not _close(c.eqe2eci(*eq, mu=mu, retro=flag), x, TOL_EQE_RT):
                 sink.fail(f"eqe-roundtrip-{tag}-{case}", f"eqe2eci(eci2eqe(x)) with retro={flag} is not x", rp)
             if flag == (inc > 0.5 * math.pi) or retro_eq:
                 if not _close(c.coe2eci(*c.eqe2coe(*eq, retro=flag), mu=mu), x, 1e-7, allow):
@@ -738,7 +833,7 @@ def _relations(sink: Sink, I: Impl, x, mu, cls, cases, tag: str, rp: dict, allow
                 ee = I.el.EquinoctialElements.fromECI(x, retro=flag)
                 if ee.is_retro != flag:
                     sink.fail("EquinoctialElements-fromECI-drops-retro", f"EquinoctialElements.fromECI(x, retro={flag}).is_retro is {ee.is_retro}", rp)
-                elif not _close(ee.toECI(), x, 1e-9, allow):
+                elif not _close(ee.toECI(), x, TOL_EQE_RT):
                     sink.fail(f"EquinoctialElements-roundtrip-{tag}-{case}", "EquinoctialElements.fromECI(x).toECI() is not x", rp)
         # configuration level: describe the orbit by the implementation's own elements, in the
         # slots that the case table of the specification assigns to the class the object reports
@@ -760,7 +855,7 @@ def _relations(sink: Sink, I: Impl, x, mu, cls, cases, tag: str, rp: dict, allow
             eq = c.eci2eqe(x, retro=flag)
             x_eqe = sc.EQEStateConfig(semi_major_axis=float(eq[0]), h=float(eq[1]), k=float(eq[2]), p=float(eq[3]), q=float(eq[4]),
                                       mean_longitude=_deg(float(eq[5])), retrograde=flag).toECI(EPOCH)
-            if not _close(x_eqe, x_eci, 1e-9, allow):
+            if not _close(x_eqe, x_eci, TOL_EQE_RT):
                 sink.fail(f"config-eqe-vs-eci-{tag}-{case}", "EQEStateConfig built from the state's own equinoctial elements does not give the ECIStateConfig state", rp)
     except Exception as ex:  # noqa: BLE001
         sink.fail(f"{pre}exception-{tag}-{case}-{type(ex).__name__}", f"conversion raised {ex!r} on a valid bound orbit", rp)
@@ -768,7 +863,7 @@ def _relations(sink: Sink, I: Impl, x, mu, cls, cases, tag: str, rp: dict, allow
 
 def threshold_variants(ctx: Ctx, sink: Sink, I: Impl, cases: dict, rng: random.Random):
     el, il = I.ecc_limit, I.inc_limit
-    e_vars = [0.0, 0.5 * el, 0.99 * el, el, 1.01 * el, 2 * el, 10 * el, 1e-4]
+    e_vars = [0.0, 1e-9, 0.5 * el, 0.99 * el, el, 1.01 * el, 2 * el, 10 * el, 1e-4]
     i_small = [0.0, 0.5 * il, 0.99 * il, il, 1.01 * il, 2 * il, 10 * il, 1e-7, 1e-6]
     i_vars = i_small + [math.pi - v for v in i_small]
     reps = 3 if ctx.quick else 25
@@ -889,7 +984,12 @@ def run(ctx: Ctx):
         "lattice oracle exact (TLC rationals); floats enter only through math.pi, math.acos(e), one division per rational and the documented scaling",
         f"anything that passed through the arccos-based extraction of eci2coe is compared with relative tolerance {TOL_ACOS} "
         "(arccos resolves 0/180 deg only to sqrt(machine epsilon)); forward / arctan2-based paths with 1e-11..1e-9",
-        "orbits the code classifies as circular / equatorial (0 < e < 1e-7, 0 < i < 1e-7 deg) may come back displaced by up to 4(e + i) relative - inherent to the documented thresholds (i: up to 3e-8 rad, the arccos resolution)",
+        "orbits the code classifies as circular / equatorial (0 < e < 1e-7, 0 < i < 1e-7 deg) may come back FROM THE CLASSICAL SET displaced by up to 4(e + i) relative - inherent to the "
+        "documented thresholds (eci2coe zeroes the undefined argument of perigee but keeps e; measured on the clean tree: up to 2 a e = 4.8e-3 km at e = 5e-8, 9.8e-3 km at e = 0.99e-7, "
+        "a = 50000 km; 2.9e-9 km at e = 1.01e-7; i: up to 3e-8 rad, the arccos resolution).  The equinoctial set has no such threshold: ECI -> EQE -> ECI, EquinoctialElements and "
+        f"EQEStateConfig are held to {TOL_EQE_RT} relative for every eccentricity (1e-9, 5e-8, 0.99e-7, 1e-7, 1.01e-7, 2e-7, 1e-6 included; measured 7e-11 km)",
+        "arccos-based angles lose up to 2.6e-8 rad next to 0 / 180 deg (measured 2.6e-8 relative = 2.2e-3 km at the apoapsis of a = 50000 km, e = 0.9 orbits): conditioning of the documented "
+        "(Vallado) formulation, inside the 5e-7 band above",
         "within 0.1 % of the eccentricity threshold, and for inclinations between the threshold (1e-7 deg) and 3e-8 rad from 0 / pi "
         "(arccos of a cosine cannot resolve them), the class of a variant is not decided and only the round-trip relations are checked",
         "equatorial retrograde composite angle: eastward and along-motion conventions both admissible as VALUES; the round trip is demanded",
@@ -917,4 +1017,5 @@ def run(ctx: Ctx):
     seam_arguments(ctx, sink, impl)
     retro_guard(ctx, sink, impl, orbits)
     config_lifecycles(ctx, sink, impl, orbits)
+    config_descriptions(ctx, sink, impl, orbits)
     ctx.extra["violation_counts"] = dict(sorted(sink.count.items()))
